@@ -16,6 +16,7 @@ FIXES = {  # commit -> (property, expected rule prefix, what)
     "93fd4c5": ("C20", "R20.", "retry loop ignores the service context"),
     "f827021": ("C07", "R7.", "file descriptors leaked on bad header / after size validation"),
     "80c6e24": ("C10", "R10.6", "hasher does not bind the outer multihash code: a sample block fulfils a row request"),
+    "7b1f742": ("C14", "R14.7", "a round refetches a completely failed batch forever"),
     "ce6f01d": ("C17", "R17.8", "stale cool-down entry re-activates a re-added peer ahead of its second cool-down"),
 }
 SEED_EXPECT = {
